@@ -393,7 +393,7 @@ def run(ctx, host=None):
     # rules of other properties that are necessary conditions of this one too: imported bytes are identical only if the direct-to-pack write path round-trips (C01)
     if host is None:
         from ..report import host_modules
-        host_modules(chk, ctx, ['C01'])
+        host_modules(chk, ctx, ['C01', 'C09'])
 
     return chk.finish(
         explanation=('Static checks of import_objects: a linear typestate for every Iterable-annotated parameter of the package (at most one consumption per path before '
